@@ -24,6 +24,9 @@ CLAIMED = {
  "C06": ("exploration", "4.3", "one server repository served by ReceivePackHandler actors, 1-2 pushers (dulwich send_pack over simnet, LocalGitClient, and a scripted raw pkt-line pusher independent of dulwich.protocol that sends stale old values, zero ids and new values absent from its pack) racing on the same refs under seeded syscall- and delivery-level schedules with optional resets; reported statuses must be explained by one CAS chain per ref ending in the server's final value, every server ref must name a present object, atomic pushes must be all-or-nothing",
          "hooks not configured; smart HTTP not simulated; schedules sampled",
          "deterministic simulation: server + racing pusher actors over simnet/simfs under seeded schedules with fault injection, history oracle (per-ref CAS chain reconstruction)"),
+ "C04": ("fault_enumeration", "4.1", "the simulator owns the reader callables and the stored bytes: four hand-built base packs are fed to five ingestion paths of the disk store and three of the memory store under simulator-chosen read chunking, with every single-bit flip (also with a recomputed trailer), byte substitutions, every truncation point, appended tails and ~45 grammar-aware attacks (counts, trailer, OFS/REF redirections incl. self/2-/3-cycles, size lies, zlib garbage, decompression bombs, deep chains, unparsable objects); after each ingestion the store is compared with its pre-state (same instance and fresh process) or every new object is re-hashed; seven kinds of stored file are damaged the same way and read back by a fresh Repo",
+         "mutation families are sharded per plan: one plan covers a sixth/eighth of the offsets, a quick run many plans; wall-clock net of 5 s only counts after a 10x solo re-run; four recorded findings cover stored files that carry no read-time integrity check",
+         "deterministic simulation of the stream and storage seams: exhaustive single-fault enumeration (bit/byte/truncation) over small inputs plus structured attacks, with store post-state oracle"),
 }
 NA = {
  "C01": "pure function of object field values / setter order: no schedule, clock, fault or I/O seam for a simulator to own (DESIGN.md section 5)",
